@@ -6,6 +6,7 @@ import importlib.util
 import math
 import random
 import warnings
+from fractions import Fraction
 
 from . import core
 from .oracles import tm, angle as ax
@@ -760,3 +761,105 @@ def near_axis_grid_case(rnd):
         c['north'] = min(max(c['north'], 0.0), 1e7)
     c['kind'] = 'near-axis'
     return c
+
+
+# ---------------------------------------------------------------------------------------------
+# the stand-alone converter as it is used: a csv file in, a csv file out (grid2geoio)
+# ---------------------------------------------------------------------------------------------
+def judge_standalone_batch(ns, ctx, rnd, n):
+    """Runs the batch entry point of Standalone/mga2gda.py on a csv file of southern-hemisphere UTM coordinates (point id, zone,
+    easting, northing; no header line) in a scratch directory and compares every row of <file>_out.csv - latitude and
+    longitude in HP notation, as the program writes them - with the library's grid2geo.  The HP numbers are read at the
+    notation's resolution; a seconds field of 60 is read as a carry (the program does not normalise its output; the statement
+    is about the angles)."""
+    sa = standalone_module(ns)
+    if not hasattr(sa, 'grid2geoio'):
+        ctx.count('standalone_batch_entry_point_absent')
+        return
+    rows = []
+    for i in range(n * 3):
+        c = gen_grid_case(rnd)
+        zone = rnd.randint(1, 60)
+        east, north = c['east'], c['north']
+        with warnings.catch_warnings():
+            warnings.simplefilter('ignore')
+            try:
+                lat, lon, _, _ = ns.convert.grid2geo(zone, east, north, 'south')
+            except Exception:
+                continue
+        if not (-80.0 < lat < -1e-6) or not (-180.0 <= lon <= 180.0) or abs(lon - (zone * 6 - 183)) > MAXDL:
+            continue
+        # how the numbers are written in the file: repr, a fixed number of decimals, integers for whole metres
+        style = rnd.choice(['repr', 'fixed', 'int-if-whole'])
+        def txt(v):
+            if style == 'fixed':
+                return '%.4f' % v
+            if style == 'int-if-whole' and float(v).is_integer():
+                return '%d' % v
+            return repr(float(v))
+        east, north = float(txt(east)), float(txt(north))
+        with warnings.catch_warnings():
+            warnings.simplefilter('ignore')
+            try:
+                lat, lon, _, _ = ns.convert.grid2geo(zone, east, north, 'south')
+            except Exception:
+                continue
+        rows.append([('P%d' % len(rows)) if rnd.random() < 0.8 else ('pt %d, a' % len(rows)), zone, txt(east), txt(north)])
+        if len(rows) >= n:
+            break
+    if rows:
+        run_standalone_rows(ns, ctx, rows)
+
+
+def run_standalone_rows(ns, ctx, rows4):
+    import csv
+    import os
+    import tempfile
+    sa = standalone_module(ns)
+    rows = []
+    for pid, zone, e_txt, n_txt in rows4:
+        with warnings.catch_warnings():
+            warnings.simplefilter('ignore')
+            lat, lon, _, _ = ns.convert.grid2geo(int(zone), float(e_txt), float(n_txt), 'south')
+        rows.append((pid, zone, e_txt, n_txt, lat, lon))
+    with tempfile.TemporaryDirectory() as d:
+        fn = os.path.join(d, 'points.csv')
+        with open(fn, 'w', newline='') as f:
+            w = csv.writer(f)
+            for r in rows:
+                w.writerow([r[0], r[1], r[2], r[3]])
+        case = {'mode': 'standalone-batch', 'rows': [list(r[:4]) for r in rows[:40]]}
+        try:
+            sa.grid2geoio(fn)
+            out = list(csv.reader(open(os.path.join(d, 'points_out.csv'), newline='')))
+        except Exception as e:
+            ctx.judged()
+            ctx.violation('standalone-batch-exception', case, {'exception': repr(e)})
+            return
+    ctx.count('standalone_batch_files')
+    if len(out) != len(rows):
+        ctx.judged()
+        ctx.violation('standalone-batch-rows', case, {'rows_in': len(rows), 'rows_out': len(out)})
+        return
+    for r, o in zip(rows, out):
+        ctx.judged()
+        ctx.count('standalone_batch_rows')
+        rc = {'mode': 'standalone-batch', 'rows': [list(r[:4])]}
+        try:
+            vals = []
+            for t in o[1:3]:
+                _, _, (sign, D, MM, SS) = ax.hp_read(float(t))
+                if MM > 60 or SS > 60:
+                    raise ValueError('minutes or seconds field above 60 in %r' % t)
+                vals.append(float(sign * (D + Fraction(MM, 60) + SS / 3600)))
+            ok = (o[0] == r[0] and len(o) == 3)
+        except (ValueError, IndexError) as e:
+            ctx.violation('standalone-batch-output-malformed', rc, {'row_out': o, 'problem': repr(e)})
+            continue
+        if not ok:
+            ctx.violation('standalone-batch-output-malformed', rc, {'row_out': o, 'expected_id': r[0]})
+            continue
+        dlat, dlon = abs(vals[0] - r[4]), abs(vals[1] - r[5])
+        if not ctx.ratio('C02.standalone-batch', max(dlat, dlon), 1e-10 + 3e-13):
+            ctx.violation('standalone-batch-differs', rc, {'batch_output_hp': o[1:3], 'denotes_deg': vals, 'library': [r[4], r[5]]})
+
